@@ -62,6 +62,7 @@ type atom = SS
 type edge struct {
 	to  atom
 	neg bool
+	rw  bool // derived from a rewrite (includes / traverse / permits), not from a subject-set tuple
 }
 
 type sem struct {
@@ -72,6 +73,7 @@ type sem struct {
 	order   []atom
 	val     map[atom]bool
 	schemaE bool
+	read    map[atom]bool // (ns,obj,rel) groups of stored tuples the evaluation looks at
 }
 
 func sameSubject(t Tuple, q Tuple) bool {
@@ -122,11 +124,12 @@ func (s *sem) directAllowed(a atom) bool {
 func (s *sem) rewriteDeps(e ast.Child, ns, obj string, neg bool, out *[]edge) {
 	switch c := e.(type) {
 	case *ast.ComputedSubjectSet:
-		*out = append(*out, edge{atom{ns, obj, c.Relation}, neg})
+		*out = append(*out, edge{atom{ns, obj, c.Relation}, neg, true})
 	case *ast.TupleToSubjectSet:
+		s.read[atom{ns, obj, c.Relation}] = true
 		for _, t := range s.tuples {
 			if t.NS == ns && t.Obj == obj && t.Rel == c.Relation && t.Set != nil {
-				*out = append(*out, edge{atom{t.Set.NS, t.Set.Obj, c.ComputedSubjectSetRelation}, neg})
+				*out = append(*out, edge{atom{t.Set.NS, t.Set.Obj, c.ComputedSubjectSetRelation}, neg, true})
 			}
 		}
 	case *ast.InvertResult:
@@ -146,7 +149,7 @@ func (s *sem) depsOf(a atom) []edge {
 	if s.xAllowed(a) {
 		for _, t := range s.tuples {
 			if t.NS == a.NS && t.Obj == a.Obj && t.Rel == a.Rel && t.Set != nil {
-				out = append(out, edge{atom(*t.Set), false})
+				out = append(out, edge{atom(*t.Set), false, false})
 			}
 		}
 	}
@@ -229,11 +232,13 @@ type Result struct {
 	Atoms       int
 	NegEdges    int
 	MaxChain    int // longest dependency chain from the query (a lower bound for the depth the engine needs)
+	RewriteCycle bool // a dependency cycle that passes through a rewrite edge: the engine has no cycle detection there and recurses until the depth budget is used up
+	Untouched   int // stored tuples whose (namespace, object, relation) the evaluation never looks at
 }
 
 // Check evaluates q = (ns, obj, rel, subject) on tuples under cfg.
 func Check(cfg *Config, tuples []Tuple, q Tuple) Result {
-	s := &sem{cfg: cfg, tuples: tuples, q: q, deps: map[atom][]edge{}, val: map[atom]bool{}}
+	s := &sem{cfg: cfg, tuples: tuples, q: q, deps: map[atom][]edge{}, val: map[atom]bool{}, read: map[atom]bool{}}
 	root := atom{q.NS, q.Obj, q.Rel}
 	// reachable atoms
 	stack := []atom{root}
@@ -303,10 +308,21 @@ func Check(cfg *Config, tuples []Tuple, q Tuple) Result {
 		}
 	}
 	res := Result{InDomain: true, Atoms: len(atoms), NegEdges: neg, SchemaError: s.schemaE}
+	for _, a := range atoms {
+		s.read[a] = true
+	}
+	for _, t := range tuples {
+		if !s.read[atom{t.NS, t.Obj, t.Rel}] {
+			res.Untouched++
+		}
+	}
 	for a, ds := range s.deps {
 		for _, d := range ds {
 			if d.neg && comp[a] == comp[d.to] {
 				res.InDomain = false
+			}
+			if d.rw && comp[a] == comp[d.to] {
+				res.RewriteCycle = true
 			}
 		}
 	}
